@@ -25,8 +25,9 @@ type irDecl struct {
 	SA int      `json:"sa,omitempty"`
 	DA int      `json:"da,omitempty"`
 	I  int      `json:"i,omitempty"`
-	A  string   `json:"a,omitempty"`
-	V  string   `json:"v,omitempty"`
+	A   string   `json:"a,omitempty"`
+	V   string   `json:"v,omitempty"`
+	Pat string   `json:"pat,omitempty"`
 }
 
 type irAlphabet struct {
@@ -103,6 +104,8 @@ func (d irDecl) render(style int) string {
 		return fmt.Sprintf("%s %s %s%s", strings.Join(d.S, "."), arrow(d.SA, d.DA), strings.Join(d.D, "."), val(d.V))
 	case "eref":
 		return fmt.Sprintf("(%s %s %s)[%d].%s: %s", strings.Join(d.S, "."), arrow(d.SA, d.DA), strings.Join(d.D, "."), d.I, d.A, d.V)
+	case "glob":
+		return strings.Join(append(append([]string{}, d.P...), d.Pat, d.A), ".") + ": " + d.V
 	case "enull":
 		return fmt.Sprintf("(%s %s %s)[%d]: null", strings.Join(d.S, "."), arrow(d.SA, d.DA), strings.Join(d.D, "."), d.I)
 	}
@@ -257,7 +260,7 @@ func driveIR(c *Ctx) error {
 	}
 	for _, in := range inputs {
 		lines := make([]string, len(in.Prog))
-		hasEdgeOp, hasNull := false, false
+		hasEdgeOp, hasNull, hasGlob := false, false, false
 		for j, di := range in.Prog {
 			if di < 1 || di > n {
 				return fmt.Errorf("ir: declaration index %d out of range", di)
@@ -273,6 +276,9 @@ func driveIR(c *Ctx) error {
 			}
 			if d.K == "null" || d.K == "anull" {
 				hasNull = true
+			}
+			if d.K == "glob" {
+				hasGlob = true
 			}
 		}
 		var evs []tr.M
@@ -300,10 +306,13 @@ func driveIR(c *Ctx) error {
 			if hasEdgeOp {
 				nt = append(nt, "C11")
 			}
+			if hasGlob {
+				nt = append(nt, "C12")
+			}
 		}
 		c.W.Add(in, evs, nt...)
 		if len(in.Prog) >= 4 {
-			for _, p := range []string{"C09", "C10", "C11"} {
+			for _, p := range []string{"C09", "C10", "C11", "C12"} {
 				c.W.Sample(p, tr.M{"program": lines})
 			}
 		}
